@@ -2,6 +2,8 @@
 package main
 
 import (
+	"os"
+	"runtime/debug"
 	"fmt"
 	"go/constant"
 	"go/types"
@@ -24,6 +26,7 @@ type loopCtx struct {
 }
 
 type SpecEnv struct {
+	foreign bool // evaluating a clause of an applied (callee / callback / lemma callee) contract
 	e     *Exec
 	cur   *State
 	old   *State
@@ -51,6 +54,9 @@ func (env *SpecEnv) with(name string, tv TV) *SpecEnv {
 }
 
 func (env *SpecEnv) fail(f string, a ...interface{}) {
+	if os.Getenv("GOVC_TRACE") != "" {
+		debug.PrintStack()
+	}
 	panic(execAbort{"spec: " + fmt.Sprintf(f, a...)})
 }
 
@@ -764,6 +770,14 @@ func (env *SpecEnv) call(n SCall) TV {
 		lit, ok := n.Args[0].(SStr)
 		if !ok {
 			env.fail("ncalls: argument must be a string literal")
+		}
+		if env.foreign {
+			// inside an applied callee contract the call log is the CALLEE's, which the caller does not know:
+			// an arbitrary number (the clause constrains nothing here)
+			e.fresh++
+			nm := fmt.Sprintf("|ncalls!%d|", e.fresh)
+			e.decl(fmt.Sprintf("(declare-const %s Int)", nm))
+			return TV{S("%s", nm), intT}
 		}
 		cnt := 0
 		for _, c := range env.cur.calls {
